@@ -41,7 +41,7 @@ def setup_impl_path():
     sys.path.insert(0, src)
     for m in [k for k in sys.modules if k == "dateutil" or k.startswith("dateutil.")]:
         del sys.modules[m]
-    os.environ.setdefault("TZ", "UTC")
+    os.environ["TZ"] = "UTC"          # whatever the caller's environment says: the checks pin their own process zone
     time.tzset()
     import dateutil
     assert os.path.realpath(dateutil.__file__).startswith(os.path.realpath(src)), dateutil.__file__
@@ -60,7 +60,7 @@ def fresh_interpreters(codes, env=None, timeout=60, workers=8):
     from concurrent.futures import ThreadPoolExecutor
     e = dict(os.environ)
     e["PYTHONPATH"] = os.path.join(REPO, "src")
-    e.setdefault("TZ", "UTC")
+    e["TZ"] = "UTC"                   # children get TZ=UTC unless the caller passes another one in `env`
     e["PYTHONDONTWRITEBYTECODE"] = "1"
     e.update(env or {})
     def one(code):
@@ -327,10 +327,46 @@ class Ctx:
             self.mismatches.append({"op": op, "input": inp, "impl": impl, "model": model})
 
     def violation(self, what, case, detail=None):
-        """the property fails on the implementation for `case` (JSON-able)"""
+        """the property fails on the implementation for `case` (JSON-able).  Instances of a LISTED finding are kept up to
+        25 per finding (the rest are only counted), so that they can never crowd a different failure out of the buffer;
+        failures no matcher claims are kept up to 200."""
         self.count("oracle_failures")
-        if len(self.violations) < 200:
-            self.violations.append({"what": what, "case": case, "detail": detail})
+        v = {"what": what, "case": case, "detail": detail}
+        kid = None
+        for k, pred in getattr(self, "known_matchers", {}).items():
+            try:
+                if pred(v):
+                    kid = k
+                    break
+            except Exception:
+                pass
+        if kid is not None:
+            n = self.hist.get("known_instances_" + kid, 0)
+            self.count("known_instances_" + kid)
+            if n < 25:
+                self.violations.append(v)
+            return
+        self._unknown_kept = getattr(self, "_unknown_kept", 0)
+        if self._unknown_kept < 200:
+            self._unknown_kept += 1
+            self.violations.append(v)
+
+    def unknown_violations(self):
+        """number of recorded violations that no known-finding matcher of this property claims — the count an early stop of
+        the failing-input search must use (instances of a listed finding are not the failing input being looked for)"""
+        ms = list(getattr(self, "known_matchers", {}).values())
+        n = 0
+        for v in self.violations:
+            hit = False
+            for pred in ms:
+                try:
+                    if pred(v):
+                        hit = True
+                        break
+                except Exception:
+                    pass
+            n += 0 if hit else 1
+        return n
 
     def note(self, s):
         self.notes.append(s)
@@ -374,6 +410,12 @@ def changed_anchors(prop):
         return []
 
 
+def is_infra(ex):
+    """time-outs and failures of the harness's own helper processes are infrastructure errors (exit 2), never violations"""
+    return (type(ex).__name__ in ("InfraError", "TimeoutExpired") or getattr(ex, "infrastructure", False)
+            or "fresh-process reference failed" in str(ex))
+
+
 def load_known(prop):
     path = os.path.join(VERIF, "known_findings.json")
     if not os.path.exists(path):
@@ -393,6 +435,7 @@ def write_replay(prop, seed, payload, tag=""):
 def run_check(mod, tier, seed, replay=None):
     prop = mod.PROP
     ctx = Ctx(prop, tier, seed)
+    ctx.known_matchers = getattr(mod, "KNOWN", {})
     setup_impl_path()
     if replay:
         payload = json.load(open(replay if os.path.isabs(replay) else os.path.join(VERIF, replay)))
@@ -426,6 +469,8 @@ def run_check(mod, tier, seed, replay=None):
             except (DriverError, subprocess.TimeoutExpired):
                 raise
             except Exception as ex:
+                if is_infra(ex):
+                    raise DriverError("%s: %s" % (type(ex).__name__, ex))
                 crashed("correspondence", ex)
         else:
             ctx.note("driver unavailable: correspondence skipped")
@@ -436,6 +481,8 @@ def run_check(mod, tier, seed, replay=None):
         except (DriverError, subprocess.TimeoutExpired):
             raise
         except Exception as ex:
+            if is_infra(ex):
+                raise DriverError("%s: %s" % (type(ex).__name__, ex))
             crashed("oracle", ex)
     except (DriverError, subprocess.TimeoutExpired) as ex:
         infra_error = "%s: %s" % (type(ex).__name__, ex)
